@@ -136,7 +136,16 @@ func genScalar(e *isaspec.Entry) {
 			}
 		}
 	}
-	// aliasing
+	// aliasing (s_*_saveexec_b64 too: operands are read before anything is written, so with dst = src0 the new
+	// EXEC is op(old src0, old EXEC) and the destination receives the old EXEC - seed C03-7)
+	if saveexec {
+		o := append([]string{}, base...)
+		o[0] = o[1]
+		add("alias:dst=src0", "%s", join(e.Name, o, ""))
+		o = append([]string{}, base...)
+		o[0], o[1] = "vcc", "vcc"
+		add("alias:dst=src0=vcc", "%s", join(e.Name, o, ""))
+	}
 	if !saveexec && len(e.Pat) >= 2 && e.Pat[0].R == 'D' {
 		for i := 1; i < len(e.Pat); i++ {
 			if e.Pat[i].R == 'S' && e.Pat[i].Bits == e.Pat[0].Bits {
